@@ -27,12 +27,19 @@ ASSUMPTIONS = ["'reduced lattice' is read as the definition in the docstring of 
                "'recovers the same crystal' (title) is additionally checked as: same point lattice, same atoms up to one origin shift (1e-6 absolute, noise is 1e-10)",
                "noise is at most 1e-10 in supercell unit coordinates, two orders below threshold=1e-8; lattice parameters come from coarse sets",
                "R12 (Crystal.reduce selects a translation whose numerators give a non-integer change of basis) is excluded from the search by a model of the "
-               "documented scan order while EXCLUDE_R12 is True; its witness is corpus/C19/known-R12-*.json"]
+               "documented scan order while EXCLUDE_R12 is True; its witness is corpus/C19/known-R12-*.json",
+               "R14b (minlattice stops on a tie description, group incomplete) is excluded while EXCLUDE_R14B is True by the input-only predicate 'the point lattice of P "
+               "admits a pairwise-reduced, non-Minkowski description in which the {-1,0,1} holohedry is incomplete' (all primitive hexagonal lattices); witness corpus/C19/known-R14b-*.json"]
 SHARDS = {"quick": 4, "thorough": 16}
 
 # set to False once Crystal.reduce is repaired (VERIF_C19_NO_EXCLUDE=1 switches the exclusion off for one run,
 # e.g. to validate a candidate repair in a scratch copy through ONSAGER_REPO)
 EXCLUDE_R12 = True and not os.environ.get("VERIF_C19_NO_EXCLUDE")
+
+# Regression of the R14 repair (b3cdd79): Crystal.minlattice stops on descriptions whose pairwise projections are all
+# exactly 1/2 although a_3 +- a_1 +- a_2 is shorter; Crystal.gengroup then misses the operations whose matrices need
+# entries outside {-1,0,1}.  Predicate (input only): the point lattice of P admits such a description.  Set to False once repaired.
+EXCLUDE_R14B = True and not os.environ.get("VERIF_C19_NO_EXCLUDE")
 
 SHIFTS = [0., 0., 0.1, 0.37, -0.23, 0.5, 0.123456789, 0.25]
 NKEYS = 24
@@ -159,13 +166,29 @@ def primitive_of(rec):
         ok, why = geom.is_group(GP, Lp)
         if not ok:
             raise HarnessError("oracle's space group of the primitive cell is not a group: %s" % why)
-        _prim[key] = (Lp, ap, nrem, GP)
+        nH = len(geom.holohedry(Lp))
+        stall = any(len(geom.holohedry(Lp @ U)) < nH for U in geom2.pairwise_stall_bases(Lp))
+        _prim[key] = (Lp, ap, nrem, GP, stall)
     return _prim[key]
+
+
+_libprim = {}
+
+
+def library_primitive(rec, Lp, ap, nspec):
+    """the library's own Crystal of the primitive description (cached: building a 3D Crystal costs ~0.5 s in genBZG)"""
+    from onsager import crystal
+    key = canon([rec["lattice"], rec["basis"]])
+    if key not in _libprim:
+        if len(_libprim) > 300:
+            _libprim.clear()
+        _libprim[key] = crystal.Crystal(np.array(Lp), [[np.array(u) for c, u in ap if c == k] for k in range(nspec)])
+    return _libprim[key]
 
 
 def build_supercell(case):
     """(Lp, atoms_p, nremoved, GP, Ls, basis) with basis = list per species of unit positions in the supercell L M"""
-    Lp, ap, nrem, GP = primitive_of(case["recipe"])
+    Lp, ap, nrem, GP, stall = primitive_of(case["recipe"])
     d = Lp.shape[0]
     M = np.array(case["M"], dtype=int)
     Ls, as_ = geom2.supercell(Lp, ap, M)
@@ -183,7 +206,7 @@ def build_supercell(case):
             lst.append(sp[n] + shift + dz)
             a += 1
         basis.append(lst)
-    return Lp, ap, nrem, GP, Ls, basis
+    return Lp, ap, nrem, GP, Ls, basis, stall
 
 
 def match_atoms(Lp, ap, crys, tol=1e-6):
@@ -210,19 +233,23 @@ def match_atoms(Lp, ap, crys, tol=1e-6):
 
 def check(case, exclude=None):
     from onsager import crystal
-    if exclude is None:
-        exclude = EXCLUDE_R12
-    Lp, ap, nrem, GP, Ls, basis = build_supercell(case)
+    ex12 = EXCLUDE_R12 if exclude is None else exclude
+    ex14 = EXCLUDE_R14B if exclude is None else exclude
+    Lp, ap, nrem, GP, Ls, basis, stall = build_supercell(case)
     d = Lp.shape[0]
     M = np.array(case["M"], dtype=int)
     det = int(round(np.linalg.det(M)))
     classes = ["dim%d" % d, "det%+d" % det, "P_atoms%d" % min(len(ap), 9), "P_G%d" % len(GP), case["recipe"]["name"].split(":")[-1][:8]]
     if nrem > 1:
         classes.append("recipe_was_nonprimitive")
+    if stall:
+        classes.append("R14b_region")
+        if ex14:
+            return {"excluded": "R14b", "classes": classes + ["excluded_R14b"], "nontrivial": False}
     pred = r12_predicted(basis)
     if pred is not None:
         classes.append("R12_region")
-        if exclude:
+        if ex12:
             return {"excluded": "R12", "classes": classes + ["excluded_R12"], "nontrivial": False}
     crys = crystal.Crystal(np.array(Ls), [[np.array(u) for u in sp] for sp in basis])
     # --- the statement
@@ -240,7 +267,7 @@ def check(case, exclude=None):
     require(match_atoms(Lp, ap, crys), "atoms of the reduced cell are not the atoms of the primitive cell up to an origin shift")
     # --- symmetry order: brute-force space group of P, and the library's own primitive description
     require(len(crys.G) == len(GP), lambda: "reduced supercell has %d operations, the primitive description has %d (brute force); lattice %s" % (len(crys.G), len(GP), np.array(crys.lattice).tolist()))
-    cP = crystal.Crystal(np.array(Lp), [[np.array(u) for c, u in ap if c == k] for k in range(len(basis))])
+    cP = library_primitive(case["recipe"], Lp, ap, len(basis))
     require(len(cP.G) == len(crys.G), lambda: "Crystal(primitive) has %d operations but Crystal(supercell) has %d" % (len(cP.G), len(crys.G)))
     require([len(sp) for sp in cP.basis] == countsP, lambda: "Crystal(primitive description) changed the atom counts to %s" % [len(sp) for sp in cP.basis])
     classes.append("minkowski" if geom2.is_minkowski(crys.lattice) else "pairwise_only")
@@ -263,8 +290,9 @@ def run(ctx):
         return info
     ctx.known(replay)
     ctx.corpus(fn)
-    ctx.note("EXCLUDE_R12", EXCLUDE_R12)
-    ctx.given(cases(), fn, quick=400, thorough=16000)
+    ctx.note("EXCLUDE_R12", bool(EXCLUDE_R12))
+    ctx.note("EXCLUDE_R14B", bool(EXCLUDE_R14B))
+    ctx.given(cases(), fn, quick=240, thorough=9000)
 
 
 def replay(case):
